@@ -11,7 +11,7 @@ PROP = dict(
          "histories each (the D13 witness clone+drop original+lookup in the clone; clone+clear original; duplicate insert "
          "on a full buffer; clear then re-insert the last value; clone, clear, re-insert; repeated inserts across a buffer switch), then (quick) 400 x <=40 ops / (thorough) 6000 x <=160 ops seeded histories per element type "
          "(insert 45%, try_get_id 10%, contains 5%, index incl. out of range 8%, len, iter, layout dump, clone, drop, clear, "
-         "into_iter, new; the scenario 'clone h; drop or clear h; get/insert/iter/index on the clone' is forced with "
+         "into_iter, new/default; Debug at every iter, get_id at every lookup, IndexMut write-back of an equal value at every third index; the scenario 'clone h; drop or clear h; get/insert/iter/index on the clone' is forced with "
          "probability 1/14 per step); values from a pool of 37 per type restricted per history to 2..37 so that duplicates "
          "are frequent; one model request per history; compared: every answer, and at layout points (len/cap) of every "
          "buffer in iteration order, (buffer, index) of every id_to_ptr entry and the map size. distinct = distinct "
